@@ -178,7 +178,9 @@ var c17Denoms = []string{"uusdc", "ufoo", "gamm/pool/1", "uusdc", "ufoo", "uswap
 
 // c17Hostile is set per generated document: a share of the documents is valid in every member
 // (so that acceptance is frequent), the rest gets hostile members with a modest probability each.
-func hostile(t *rapid.T, label string, on bool) bool { return on && kit.Chance(t, label+"/hostile", 22) }
+func hostile(t *rapid.T, label string, on bool) bool {
+	return on && kit.Chance(t, label+"/hostile", 22)
+}
 
 func genCCID(t *rapid.T, label string, h bool) *core.CrossChainID {
 	if hostile(t, label+"/nil", h) && kit.Chance(t, label+"/nil2", 15) {
